@@ -155,11 +155,24 @@ def _shard(shard, seed, tier):
                     part.violation("%s|%s|%s|%s|%s|entries" % (handlers, ae, ah, ascii(d), view),
                                    "directory %r: %s shows %d entries, gopher %d; first difference at #%d: %r vs %r" % (
                                        d, view, len(got), len(want), i, got[i:i + 1], want[i:i + 1]), case)
-            # trailing slash
+            # trailing slash (for the URL-based protocols also sent percent-encoded)
             if d != b"/":
-                for view in ("gopher", "http", "gemini", "spartan", "wap", "gopherp_dir"):
+                for view in ("gopher", "http", "gemini", "spartan", "wap", "gopherp_dir", "http%2F", "gemini%2F", "spartan%2F", "wap%2F"):
+                    enc_slash = view.endswith("%2F")
+                    view = view[:-3] if enc_slash else view
                     a = w.serve(*rig.request(view, d))
-                    b = w.serve(*rig.request(view, d + b"/"))
+                    if enc_slash:
+                        rq, tls = rig.request(view, d)
+                        # append %2F to the path part of the request line
+                        if view in ("http", "wap"):
+                            rq = rq.replace(b" HTTP/1.0", b"%2F HTTP/1.0", 1)
+                        elif view == "gemini":
+                            rq = rq.replace(b"\r\n", b"%2F\r\n", 1)
+                        else:
+                            rq = rq.replace(b" 0\r\n", b"%2F 0\r\n", 1)
+                        b = w.serve(rq, tls)
+                    else:
+                        b = w.serve(*rig.request(view, d + b"/"))
                     part.evaluations += 2
                     if _norm(a.out) != _norm(b.out):
                         part.violation("%s|%s|%s|%s|%s|trailing-slash" % (handlers, ae, ah, ascii(d), view), "%r and %r/ answer differently via %s: %r vs %r" % (d, d, view, a.out[:120], b.out[:120]),
@@ -197,7 +210,7 @@ def _shard(shard, seed, tier):
 # --- search -----------------------------------------------------------------------------
 
 SEARCH_ALPHABET = [b"a", b" ", b"+", b"&", b"=", b"%", b"?", b"#", b"/", b"\xc3\xa9", b"\xff", b'"', b"<", b"'"]
-SEARCH_VIEWS = ["gopher", "gopherp", "http", "wap", "gemini", "gemini_raw", "spartan", "https", "sgopher"]
+SEARCH_VIEWS = ["gopher", "gopherp", "http", "wap", "gemini", "gemini_raw", "gemini_flow", "gemini_flow_raw", "spartan", "https", "sgopher"]
 
 HEXDUMP = b"#!/bin/sh\nprintf '%s' \"$SEARCHREQUEST\" | od -An -v -tx1 | tr -d ' \\n'\n"
 PYGQ = worlds.PYG.replace(b'"PYG:%r\\n" % (self.searchrequest,)', b'"PYG:%s\\n" % ((self.searchrequest or "").encode(errors="surrogateescape").hex(),)')
@@ -266,6 +279,23 @@ def _shard_search(shard, seed, tier):
         for q in qs:
             seen = {}
             for view in SEARCH_VIEWS:
+                if view.startswith("gemini_flow"):
+                    if q == b"":
+                        continue
+                    # the way a Gemini client follows a search link: prompt (10), input, redirect (30), final URL
+                    host = rig.SERVER_NAME.encode()
+                    enc = quote(q, safe="").encode() if view == "gemini_flow" else quote(q, safe="!$&'()*+,;=:@/?").encode()
+                    r0 = w.serve(b"gemini://" + host + b"/GEMINI-QUERY" + sel + b"\r\n", True)
+                    r1 = w.serve(b"gemini://" + host + b"/GEMINI-QUERY" + sel + b"?" + enc + b"\r\n", True)
+                    part.evaluations += 2
+                    m = re.match(rb"^30 ([^\r\n]*)\r\n$", r1.out)
+                    if not r0.out.startswith(b"10 ") or not m:
+                        seen[view] = None
+                        continue
+                    r = w.serve(b"gemini://" + host + m.group(1) + b"\r\n", True)
+                    part.evaluations += 1
+                    seen[view] = None if r.internal_error else _delivered("gemini", r.out, target)
+                    continue
                 if view in ("gopher", "sgopher") and q[:1] in (b"+", b"$", b"!"):
                     # a second field that starts with + $ ! IS a Gopher+ request by the protocol's own
                     # definition; such a string can only be submitted as a search through Gopher+
